@@ -45,7 +45,7 @@ func H_C20_outcome() {
 		}
 		c = cfgWithOptName(dir, opt, string(long))
 	}
-	_ = isCI // force start-up
+	forceInit()
 	pre := [4]int{testEvents.items[erred], testEvents.items[added], testEvents.items[updated], testEvents.items[passed]}
 	vxrt.FSFaults(vxrt.Param("faults", 1) == 1)
 	t := newT(name)
@@ -72,10 +72,10 @@ func H_C20_outcome() {
 		vxrt.Assert(len(t.errors) == 1 && len(t.logs) == 0, "C20:failed-is-exactly-one-error")
 	case d[1] == 1:
 		vxrt.Reach("added")
-		vxrt.Assert(len(t.errors) == 0 && len(t.logs) == 1 && t.logs[0] == addedMsg, "C20:added-is-one-added-log")
+		vxrt.Assert(len(t.errors) == 0 && len(t.logs) == 1 && isLog(t.logs[0], "Snapshot added"), "C20:added-is-one-added-log")
 	case d[2] == 1:
 		vxrt.Reach("updated")
-		vxrt.Assert(len(t.errors) == 0 && len(t.logs) == 1 && t.logs[0] == updatedMsg, "C20:updated-is-one-updated-log")
+		vxrt.Assert(len(t.errors) == 0 && len(t.logs) == 1 && isLog(t.logs[0], "Snapshot updated"), "C20:updated-is-one-updated-log")
 	case d[3] == 1:
 		vxrt.Reach("passed")
 		vxrt.Assert(len(t.errors) == 0 && len(t.logs) == 0, "C20:passed-is-silent")
@@ -86,6 +86,7 @@ func H_C20_outcome() {
 // absent iff its counter is 0), the skip count and the obsolete lists.
 func H_C20_summary() {
 	vxrt.EnvFixed("NO_COLOR", "1")
+	calibrateSummary()
 	ev := map[uint8]int{}
 	vals := [4]int{}
 	for k := 0; k < 4; k++ {
@@ -150,7 +151,7 @@ func H_C20_summary() {
 		n := 0
 		for _, it := range items {
 			for _, l := range lines {
-				if strings.HasSuffix(l, bulletSymbol+it) {
+				if strings.HasSuffix(l, vxBullet+it) {
 					n++
 				}
 			}
@@ -163,14 +164,14 @@ func H_C20_summary() {
 		if nf > 1 {
 			w = " snapshot files " + action
 		}
-		vxrt.Assert(strings.Contains(s, arrowSymbol+itoa(nf)+w), "C20:summary-file-header")
+		vxrt.Assert(strings.Contains(s, vxArrow+itoa(nf)+w), "C20:summary-file-header")
 	}
 	if nt > 0 {
 		w := " snapshot test " + action
 		if nt > 1 {
 			w = " snapshot tests " + action
 		}
-		vxrt.Assert(strings.Contains(s, arrowSymbol+itoa(nt)+w), "C20:summary-test-header")
+		vxrt.Assert(strings.Contains(s, vxArrow+itoa(nt)+w), "C20:summary-test-header")
 	}
 }
 
@@ -207,9 +208,9 @@ func H_C20_skips() {
 	}
 	Clean(nil)
 	out := vxrt.Stdout()
-	want := skipSymbol + itoa(k) + " snapshot skipped\n"
+	want := vxSkipMark + itoa(k) + " snapshot skipped\n"
 	if k > 1 {
-		want = skipSymbol + itoa(k) + " snapshots skipped\n"
+		want = vxSkipMark + itoa(k) + " snapshots skipped\n"
 	}
 	vxrt.Assert(strings.Contains(out, want), "C20:summary-counts-every-skip-call")
 }
@@ -220,7 +221,7 @@ func H_C20_skips() {
 func H_C20_concurrent() {
 	vxrt.CI(false)
 	vxrt.EnvFixed("NO_COLOR", "1")
-	_ = isCI
+	forceInit()
 	vxrt.Shared(testEvents)
 	vxrt.Shared(skippedTests)
 	ev := []uint8{erred, added, updated, passed}[vxrt.Choice("event", 4)]
@@ -313,7 +314,7 @@ func H_C20_clean_summary() {
 	Clean(nil)
 	out := vxrt.Stdout()
 	if withObsolete {
-		vxrt.Assert(strings.Contains(out, arrowSymbol+"2 snapshot tests obsolete") && strings.Count(out, bulletSymbol+"TestOld - 1\n") == 2, "C20:summary-lists-every-obsolete-entry")
+		vxrt.Assert(strings.Contains(out, vxArrow+"2 snapshot tests obsolete") && strings.Count(out, vxBullet+"TestOld - 1\n") == 2, "C20:summary-lists-every-obsolete-entry")
 	}
 	for _, e := range []struct {
 		verb string
